@@ -737,15 +737,18 @@ class Translator:
                 x = float(m.group(1))
                 if x == 0.0: return ("(@zero A)", "elem")
                 if x == 1.0: return ("(@one A)", "elem")
+                if self.spec.get("lit_nat") and x == int(x) and 2 <= x < 2 ** 20: return (self.spec["lit_nat"].format(int(x)), "elem")
                 if (self.spec.get("sarith") or self.spec.get("lit2")) and x == 2.0: return ("(add (@one A) (@one A))", "elem")
                 # a literal the model takes as a named parameter (Section variable of the generated file), by its exact text
                 if m.group(1) in self.spec.get("literals", {}): return (self.spec["literals"][m.group(1)], "elem")
+                # an integral literal n. / n.0 as the model's `n as f64` (exact for the small integers that occur)
+                if self.spec.get("lit_nat") and x == int(x) and 2 <= x < 2 ** 20: return (self.spec["lit_nat"].format(int(x)), "elem")
                 self.bad("floating-point literal %s (only 0.0 / 1.0 have a meaning over an arbitrary Arith)" % txt)
             self.bad("numeric literal %r" % txt)
         if k == "var":
             v = env.lookup(e[1])
             if v is None:
-                c = self.tb.CONSTS.get(e[1])
+                c = self.spec.get("consts", {}).get(e[1]) or self.tb.CONSTS.get(e[1])
                 if c: return c
                 self.bad("unknown identifier `%s`" % e[1])
             if v in env.uninit: self.bad("`%s` is read before it is assigned (declared by a `let` without initialiser)" % e[1])
@@ -830,7 +833,7 @@ class Translator:
         if k == "closure": self.bad("closure outside .iter().map(..).collect()")
         if k == "range": self.bad("range expression outside a `for` header / drain")
         if k == "path":
-            c = self.tb.CONSTS.get("::".join(e[1]))
+            c = self.spec.get("consts", {}).get("::".join(e[1])) or self.tb.CONSTS.get("::".join(e[1]))
             if c: return c
             self.bad("path `%s` used as a value" % "::".join(e[1]))
         if k == "match": self.bad("`match` in this position")
@@ -855,6 +858,8 @@ class Translator:
         if ta == "lit" and tb_ == "lit": ta = tb_ = "usize"
         elif ta == "lit": a = self.lit(a, "lit", tb_); ta = tb_
         elif tb_ == "lit": b = self.lit(b, "lit", ta); tb_ = ta
+        if (op, ta, tb_) in self.spec.get("binops", {}):
+            return self.apply_fn(self.spec["binops"][(op, ta, tb_)], [a, b], B)
         if (op, ta, tb_) in self.tb.BINOPS:
             return self.apply_fn(self.tb.BINOPS[(op, ta, tb_)], [a, b], B)
         if ta != tb_: self.bad("operator `%s` on operands of types %s and %s" % (op, ta, tb_))
@@ -882,6 +887,8 @@ class Translator:
             if op in ("+", "-", "*"): return ("(%s %s %s)" % ({"+": "add", "-": "sub", "*": "mul"}[op], a, b), ta)
             if op == "/":
                 v = self.fresh("q"); B.append(("bind", ("v", v), ("app", "div", [g_raw(a), g_raw(b)]))); return (v, ta)
+        if ta in SCALARS and op in ("==", "!="):
+            return (("(eqb %s %s)" if op == "==" else "(negb (eqb %s %s))") % (a, b), "bool")
         if ta == "elem":
             cmpm = {"==": "(eqb %s %s)", "!=": "(negb (eqb %s %s))", "<": "(ltb %s %s)", "<=": "(leb %s %s)", ">": "(gtb %s %s)"}
             if op in cmpm: return (cmpm[op] % (a, b), "bool")
@@ -899,7 +906,7 @@ class Translator:
 
     def field(self, e, env, B):
         base, ty = self.ex(e[1], env, B)
-        f = self.tb.FIELDS.get((ty if not isinstance(ty, tuple) else ty[0], e[2]))
+        f = self.spec.get("fields", {}).get((ty if not isinstance(ty, tuple) else ty[0], e[2])) or self.tb.FIELDS.get((ty if not isinstance(ty, tuple) else ty[0], e[2]))
         if f is None:
             if isinstance(ty, tuple) and ty[0] == "tuple" and e[2].isdigit() and len(ty[1]) >= 2 and int(e[2]) < len(ty[1]):
                 # (a, b, c) is the left-nested pair ((a, b), c)
